@@ -887,6 +887,8 @@ class SymEngine:
             return facts.set_none(l, op == "is")
         if op in ("is", "isnot"):
             op = "==" if op == "is" else "!="
+        if op in ("in", "notin") and r[0] in ("tuple", "list", "set") and r[1] and all(is_c(x) for x in r[1]):
+            r = C(tuple(x[1] for x in r[1]))  # a display of constants is a constant collection
         if is_c(r):
             v = r[1]
             if op in ("==", "!="):
